@@ -3,6 +3,21 @@
 From LC Require Import Lib.Bytes Lib.Lex Lib.Fields Lib.PathM Model.InUse Cases.C19.
 Import C19.
 
+(* ---------------------------------------------------------------- lists *)
+Lemma map_flat_map {A B C} (f : A -> list B) (g : B -> C) l :
+  map g (flat_map f l) = flat_map (fun x => map g (f x)) l.
+Proof. induction l; cbn; [reflexivity|]. now rewrite map_app, IHl. Qed.
+
+Lemma flat_map_ext_in {A B} (f g : A -> list B) l : (forall x, In x l -> f x = g x) -> flat_map f l = flat_map g l.
+Proof. induction l; cbn; intros H; [reflexivity|]. rewrite H by now left. f_equal. apply IHl. intros; apply H; now right. Qed.
+
+Lemma flat_map_incl {A B} (f : A -> list B) l l' : incl l l' -> incl (flat_map f l) (flat_map f l').
+Proof. intros H x Hx. apply in_flat_map in Hx as (y & Hy & Hx). apply in_flat_map. exists y. auto. Qed.
+
+Lemma flat_map_combine_seq {A B} (f : A -> list B) (l : list A) : forall i,
+  flat_map (fun ip : nat * A => f (snd ip)) (combine (seq i (length l)) l) = flat_map f l.
+Proof. induction l; intros i; cbn; [reflexivity|]. now rewrite IHl. Qed.
+
 (* ---------------------------------------------------------------- strings *)
 Lemma strip_prefix_app p r : strip_prefix p (p ++ r) = Some r.
 Proof. induction p as [|x p IH]; cbn; [reflexivity|]. now rewrite Ascii.eqb_refl. Qed.
@@ -463,4 +478,282 @@ Proof.
     - rewrite class_inner by assumption. rewrite IH. cbn [fl_mb fl_nmb fl_chroot].
       destruct dirs; [congruence|]. rewrite andb_true_r, !orb_assoc. reflexivity. }
   rewrite G. reflexivity.
+Qed.
+
+(* ---------------------------------------------------------------- DescribeUsers *)
+From Coq Require Import Sorting.Sorted.
+
+Lemma uinsert_in x l z : In z (uinsert x l) <-> z = x \/ In z l.
+Proof.
+  induction l as [|y r IH]; cbn; [intuition congruence|].
+  destruct (user_le x y); cbn; [intuition congruence|]. rewrite IH. intuition congruence.
+Qed.
+Lemma usort_in l z : In z (usort l) <-> In z l.
+Proof. induction l as [|y r IH]; cbn; [tauto|]. rewrite uinsert_in, IH. intuition congruence. Qed.
+
+Definition pid_le (a b : user) : Prop := (u_pid a <= u_pid b)%N.
+Lemma user_le_true x y : user_le x y = true -> pid_le x y.
+Proof.
+  unfold user_le, pid_le. intros H. apply orb_true_iff in H as [H|H].
+  - apply N.ltb_lt in H. lia.
+  - apply andb_true_iff in H as [H _]. apply N.eqb_eq in H. lia.
+Qed.
+Lemma user_le_false x y : user_le x y = false -> pid_le y x.
+Proof.
+  unfold user_le, pid_le. intros H. apply orb_false_iff in H as [H _]. apply N.ltb_ge in H. exact H.
+Qed.
+Lemma uinsert_sorted x l : StronglySorted pid_le l -> StronglySorted pid_le (uinsert x l).
+Proof.
+  induction 1 as [|y r HS IH HF]; cbn; [repeat constructor|].
+  destruct (user_le x y) eqn:E.
+  - apply user_le_true in E. constructor; [constructor; assumption|]. constructor; [assumption|].
+    rewrite Forall_forall in HF |- *. intros z Hz. specialize (HF z Hz). unfold pid_le in *. lia.
+  - apply user_le_false in E. constructor; [assumption|]. apply Forall_forall. intros z Hz.
+    apply uinsert_in in Hz as [->|Hz]; [assumption|]. rewrite Forall_forall in HF. auto.
+Qed.
+Lemma usort_sorted l : StronglySorted pid_le (usort l).
+Proof. induction l; cbn; [constructor|]. now apply uinsert_sorted. Qed.
+
+(* the update of the per-process record by one entry of the same process *)
+Definition pd_upd (pd : pdata) (u : user) : pdata :=
+  if (u_kind u =? K_root)%N then MkPD (pd_pid pd) true (pd_inlayer pd) (pd_cmd pd) (pd_cwd pd) (pd_files pd)
+  else if (u_kind u =? K_cwd)%N then MkPD (pd_pid pd) (pd_chroot pd) true (pd_cmd pd) (u_file u) (pd_files pd)
+  else if (u_kind u =? K_open)%N then MkPD (pd_pid pd) (pd_chroot pd) (pd_inlayer pd) (pd_cmd pd) (pd_cwd pd) (pd_files pd ++ [u_file u])
+  else pd.
+Definition pd_fresh (u : user) : pdata := MkPD (u_pid u) false false (u_prog u) [] [].
+
+(* the loop of DescribeUsers as a structural recursion *)
+Fixpoint rows_from (pd : pdata) (s : list user) : list drow :=
+  match s with
+  | [] => pd_flush pd
+  | u :: r =>
+    if (u_pid u =? pd_pid pd)%N then rows_from (pd_upd pd u) r
+    else pd_flush pd ++ rows_from (pd_upd (pd_fresh u) u) r
+  end.
+
+Lemma fold_rows_from s : forall acc pd,
+  (let '(acc', pd') := fold_left pd_step s (acc, pd) in acc' ++ pd_flush pd') = acc ++ rows_from pd s.
+Proof.
+  induction s as [|u r IH]; intros acc pd; cbn [fold_left rows_from]; [reflexivity|].
+  unfold pd_step at 2. destruct (u_pid u =? pd_pid pd)%N eqn:E; cbn [negb].
+  - fold (pd_upd pd u). apply IH.
+  - change (MkPD (u_pid u) false false (u_prog u) [] []) with (pd_fresh u).
+    fold (pd_upd (pd_fresh u) u). rewrite IH. now rewrite <- app_assoc.
+Qed.
+Lemma describe_rows_from us : describe us = rows_from pd0 (usort us).
+Proof. unfold describe. pose proof (fold_rows_from (usort us) [] pd0) as H. cbn [app] in H. exact H. Qed.
+
+(* summary of a group of entries *)
+Definition grp (s : list user) (q : N) : list user := filter (fun u => (u_pid u =? q)%N) s.
+Definition summ (pd : pdata) (g : list user) : pdata := fold_left pd_upd g pd.
+Lemma pd_upd_pid pd u : pd_pid (pd_upd pd u) = pd_pid pd.
+Proof. unfold pd_upd. destruct (u_kind u =? K_root)%N, (u_kind u =? K_cwd)%N, (u_kind u =? K_open)%N; reflexivity. Qed.
+Lemma summ_pid pd g : pd_pid (summ pd g) = pd_pid pd.
+Proof. revert pd. induction g as [|u g IH]; intros pd; cbn; [reflexivity|]. unfold summ in IH. now rewrite IH, pd_upd_pid. Qed.
+
+(* distinct process ids of s in order of first appearance after p *)
+Fixpoint runs (s : list user) (p : N) : list N :=
+  match s with
+  | [] => []
+  | u :: r => if (u_pid u =? p)%N then runs r p else u_pid u :: runs r (u_pid u)
+  end.
+Fixpoint first_of (s : list user) (q : N) : option user :=
+  match s with [] => None | u :: r => if (u_pid u =? q)%N then Some u else first_of r q end.
+Definition rows_for (s : list user) (q : N) : list drow :=
+  match first_of s q with
+  | Some u => pd_flush (summ (pd_fresh u) (grp s q))
+  | None => []
+  end.
+
+Lemma runs_gt s : forall p, StronglySorted pid_le s -> (forall u, In u s -> (p <= u_pid u)%N) ->
+  forall q, In q (runs s p) -> (p < q)%N /\ exists u, In u s /\ u_pid u = q.
+Proof.
+  induction s as [|u r IH]; intros p HS Hp q Hq; cbn in Hq; [contradiction|].
+  inversion HS as [|? ? HS' HF]; subst. rewrite Forall_forall in HF.
+  assert (Hu : (p <= u_pid u)%N) by (apply Hp; now left).
+  destruct (u_pid u =? p)%N eqn:E.
+  - destruct (IH p HS' (fun z Hz => Hp z (or_intror Hz)) q Hq) as [H1 (z & Hz & Ez)].
+    split; [assumption|]. exists z. split; [now right|assumption].
+  - apply N.eqb_neq in E. destruct Hq as [<-|Hq].
+    + split; [lia|]. exists u. split; [now left|reflexivity].
+    + destruct (IH (u_pid u) HS' (fun z Hz => HF z Hz) q Hq) as [H1 (z & Hz & Ez)].
+      split; [lia|]. exists z. split; [now right|assumption].
+Qed.
+
+Lemma rows_for_cons_other u r q : u_pid u <> q -> rows_for (u :: r) q = rows_for r q.
+Proof.
+  intros H. unfold rows_for, grp. cbn [first_of filter].
+  assert (E : (u_pid u =? q)%N = false) by now apply N.eqb_neq. now rewrite E.
+Qed.
+
+Lemma grp_none s q : (forall u, In u s -> u_pid u <> q) -> grp s q = [].
+Proof.
+  induction s as [|u r IH]; intros H; cbn; [reflexivity|].
+  assert (E : (u_pid u =? q)%N = false) by (apply N.eqb_neq; apply H; now left).
+  rewrite E. apply IH. intros; apply H; now right.
+Qed.
+
+(* the loop on a list sorted by process id: the open record completed by its group, then one
+   flush per further process id *)
+Lemma rows_from_sorted s : forall pd, StronglySorted pid_le s -> (forall u, In u s -> (pd_pid pd <= u_pid u)%N) ->
+  rows_from pd s = pd_flush (summ pd (grp s (pd_pid pd))) ++ flat_map (rows_for s) (runs s (pd_pid pd)).
+Proof.
+  induction s as [|u r IH]; intros pd HS Hp; cbn [rows_from runs flat_map grp filter summ fold_left]; [now rewrite app_nil_r|].
+  inversion HS as [|? ? HS' HF]; subst. rewrite Forall_forall in HF.
+  destruct (u_pid u =? pd_pid pd)%N eqn:E.
+  - apply N.eqb_eq in E. cbn [fold_left]. rewrite IH; [|assumption|].
+    + rewrite pd_upd_pid. fold (grp r (pd_pid pd)). f_equal.
+      apply flat_map_ext_in. intros q Hq. symmetry. apply rows_for_cons_other.
+      destruct (runs_gt r (pd_pid pd) HS' (fun z Hz => Hp z (or_intror Hz)) q Hq) as [Hlt _]. lia.
+    + intros z Hz. rewrite pd_upd_pid. apply Hp. now right.
+  - apply N.eqb_neq in E. assert (Hu : (pd_pid pd <= u_pid u)%N) by (apply Hp; now left).
+    fold (grp r (pd_pid pd)). rewrite grp_none.
+    2:{ intros z Hz. specialize (HF z Hz). unfold pid_le in HF. lia. }
+    cbn [fold_left]. f_equal. rewrite IH; [|assumption|].
+    + rewrite pd_upd_pid. cbn [pd_fresh pd_pid]. cbn [flat_map]. f_equal.
+      * unfold rows_for. cbn [first_of]. rewrite N.eqb_refl. unfold grp. cbn [filter]. rewrite N.eqb_refl. reflexivity.
+      * apply flat_map_ext_in. intros q Hq. symmetry. apply rows_for_cons_other.
+        destruct (runs_gt r (u_pid u) HS' (fun z Hz => HF z Hz) q Hq) as [Hlt _]. lia.
+    + intros z Hz. rewrite pd_upd_pid. cbn [pd_fresh pd_pid]. apply HF. exact Hz.
+Qed.
+
+Lemma describe_char us : let s := usort us in describe us = flat_map (rows_for s) (runs s 0).
+Proof.
+  intros s. rewrite describe_rows_from. fold s.
+  rewrite (rows_from_sorted s pd0 (usort_sorted us)); [|intros; cbn; lia].
+  cbn [pd0 pd_pid]. unfold pd_flush at 1. rewrite summ_pid. reflexivity.
+Qed.
+
+(* the fields of a summary *)
+Definition g_cwd (g : list user) (init : bytes) : bytes :=
+  fold_left (fun acc u => if (u_kind u =? K_cwd)%N then u_file u else acc) g init.
+Definition g_files (g : list user) : list bytes := map u_file (filter (fun u => (u_kind u =? K_open)%N) g).
+Lemma summ_fields g : forall pd,
+  summ pd g = MkPD (pd_pid pd) (pd_chroot pd || existsb (fun u => (u_kind u =? K_root)%N) g)
+                   (pd_inlayer pd || existsb (fun u => (u_kind u =? K_cwd)%N) g) (pd_cmd pd)
+                   (g_cwd g (pd_cwd pd)) (pd_files pd ++ g_files g).
+Proof.
+  unfold summ, g_cwd, g_files. induction g as [|u g IH]; intros pd; cbn [fold_left existsb filter map].
+  - destruct pd. cbn. now rewrite !orb_false_r, app_nil_r.
+  - rewrite IH. unfold pd_upd.
+    destruct (N.eq_dec (u_kind u) K_root) as [E|E].
+    + rewrite E. cbn. f_equal. now rewrite orb_true_r.
+    + assert (E0 : (u_kind u =? K_root)%N = false) by now apply N.eqb_neq. rewrite E0.
+      destruct (N.eq_dec (u_kind u) K_cwd) as [E1|E1].
+      * rewrite E1. cbn. f_equal. now rewrite orb_true_r.
+      * assert (E2 : (u_kind u =? K_cwd)%N = false) by now apply N.eqb_neq. rewrite E2.
+        destruct (u_kind u =? K_open)%N; cbn; [now rewrite <- app_assoc|reflexivity].
+Qed.
+
+Lemma g_cwd_in g : forall init, g_cwd g init = init \/ exists u, In u g /\ u_kind u = K_cwd /\ g_cwd g init = u_file u.
+Proof.
+  unfold g_cwd. induction g as [|u g IH]; intros init; cbn [fold_left]; [now left|].
+  destruct (u_kind u =? K_cwd)%N eqn:E.
+  - apply N.eqb_eq in E. destruct (IH (u_file u)) as [H|(z & Hz & Hk & H)].
+    + right. exists u. split; [now left|]. auto.
+    + right. exists z. split; [now right|]. auto.
+  - destruct (IH init) as [H|(z & Hz & Hk & H)]; [now left|]. right. exists z. split; [now right|]. auto.
+Qed.
+Lemma g_cwd_has g init : existsb (fun u => (u_kind u =? K_cwd)%N) g = true ->
+  exists u, In u g /\ u_kind u = K_cwd /\ g_cwd g init = u_file u.
+Proof.
+  revert init. unfold g_cwd. induction g as [|u g IH]; intros init; cbn [existsb fold_left]; [discriminate|].
+  destruct (u_kind u =? K_cwd)%N eqn:E; cbn [orb].
+  - intros _. apply N.eqb_eq in E. destruct (g_cwd_in g (u_file u)) as [H|(z & Hz & Hk & H)].
+    + exists u. split; [now left|]. auto.
+    + exists z. split; [now right|]. auto.
+  - intros H. destruct (IH init H) as (z & Hz & Hk & H'). exists z. split; [now right|]. auto.
+Qed.
+
+Lemma first_of_some s q u : first_of s q = Some u -> In u s /\ u_pid u = q.
+Proof.
+  induction s as [|z r IH]; cbn; [discriminate|]. destruct (u_pid z =? q)%N eqn:E.
+  - intros H. injection H as <-. apply N.eqb_eq in E. split; [now left|assumption].
+  - intros H. destruct (IH H). split; [now right|assumption].
+Qed.
+Lemma first_of_none s q : first_of s q = None -> forall u, In u s -> u_pid u <> q.
+Proof.
+  induction s as [|z r IH]; cbn; [intros _ u []|]. destruct (u_pid z =? q)%N eqn:E; [discriminate|].
+  apply N.eqb_neq in E. intros H u [<-|Hu]; auto.
+Qed.
+
+(* what DescribeUsers prints, in terms of the entries it was given *)
+Theorem describe_rows us r : In r (describe us) ->
+  let g := grp (usort us) (r_pid r) in
+  (1 <= r_pid r)%N /\ g <> []
+  /\ r_mode r = (if existsb (fun u => (u_kind u =? K_root)%N) g then 1
+                 else if existsb (fun u => (u_kind u =? K_cwd)%N) g then 2 else 3)%N
+  /\ r_cwd r = g_cwd g []
+  /\ r_files r = Lex.sort (g_files g).
+Proof.
+  rewrite describe_char. intros H. apply in_flat_map in H as (q & Hq & Hr).
+  unfold rows_for in Hr. destruct (first_of (usort us) q) as [u|] eqn:EF; [|contradiction].
+  apply first_of_some in EF as [Hu Epid]. rewrite summ_fields in Hr. unfold pd_flush in Hr. cbn [pd_pid pd_fresh] in Hr.
+  rewrite Epid in Hr. destruct (q <? 1)%N eqn:E1; [contradiction|]. apply N.ltb_ge in E1.
+  destruct Hr as [<-|[]]. cbn [r_pid r_mode r_cwd r_files pd_chroot pd_inlayer pd_cwd pd_files pd_fresh orb app].
+  split; [assumption|]. split; [|auto].
+  intros E. assert (X : In u (grp (usort us) q)) by (apply filter_In; split; [assumption|now apply N.eqb_eq]).
+  rewrite E in X. contradiction.
+Qed.
+
+Lemma runs_nodup s : forall p, StronglySorted pid_le s -> (forall u, In u s -> (p <= u_pid u)%N) -> NoDup (runs s p).
+Proof.
+  induction s as [|u r IH]; intros p HS Hp; cbn; [constructor|].
+  inversion HS as [|? ? HS' HF]; subst. rewrite Forall_forall in HF.
+  destruct (u_pid u =? p)%N.
+  - apply IH; [assumption|]. intros; apply Hp; now right.
+  - constructor.
+    + intros Hin. destruct (runs_gt r (u_pid u) HS' (fun z Hz => HF z Hz) _ Hin) as [Hlt _]. lia.
+    + apply IH; [assumption|]. intros z Hz. apply HF. exact Hz.
+Qed.
+Lemma runs_complete s : forall p u, In u s -> u_pid u <> p -> (forall z, In z s -> (p <= u_pid z)%N) ->
+  StronglySorted pid_le s -> In (u_pid u) (runs s p).
+Proof.
+  induction s as [|z r IH]; intros p u Hu Hne Hp HS; [contradiction|]. cbn.
+  inversion HS as [|? ? HS' HF]; subst. rewrite Forall_forall in HF.
+  destruct (u_pid z =? p)%N eqn:E.
+  - apply N.eqb_eq in E. destruct Hu as [->|Hu]; [congruence|]. apply IH; auto; intros; apply Hp; now right.
+  - destruct Hu as [->|Hu]; [now left|]. destruct (N.eq_dec (u_pid u) (u_pid z)) as [Eq|Nq]; [left; auto|].
+    right. apply IH; auto; intros w Hw; now apply HF.
+Qed.
+
+Lemma rows_for_pid s q r : In r (rows_for s q) -> r_pid r = q.
+Proof.
+  unfold rows_for. destruct (first_of s q) as [u|] eqn:E; [|contradiction]. apply first_of_some in E as [_ E].
+  unfold pd_flush. rewrite summ_pid. cbn [pd_fresh pd_pid]. destruct (u_pid u <? 1)%N; [contradiction|].
+  intros [<-|[]]. exact E.
+Qed.
+Lemma rows_for_length s q : (length (rows_for s q) <= 1)%nat.
+Proof.
+  unfold rows_for. destruct (first_of s q); [|cbn; lia]. unfold pd_flush. destruct (_ <? 1)%N; cbn; lia.
+Qed.
+
+Theorem describe_nodup us : NoDup (map r_pid (describe us)).
+Proof.
+  rewrite describe_char. set (s := usort us).
+  assert (ND : NoDup (runs s 0)) by (apply runs_nodup; [apply usort_sorted|intros; lia]).
+  induction (runs s 0) as [|q qs IH]; cbn [flat_map map]; [constructor|].
+  inversion ND as [|? ? Hnin ND']; subst. rewrite map_app.
+  pose proof (rows_for_length s q) as HL. destruct (rows_for s q) as [|r [|r2 rs]] eqn:E; cbn [map app]; [now apply IH| |cbn in HL; lia].
+  constructor; [|now apply IH].
+  intros Hin. apply in_map_iff in Hin as (r' & Hp & Hr'). apply in_flat_map in Hr' as (q' & Hq' & Hr').
+  apply rows_for_pid in Hr'. assert (Hr : r_pid r = q) by (apply (rows_for_pid s q); rewrite E; now left).
+  apply Hnin. congruence.
+Qed.
+
+Theorem describe_complete us u : In u us -> (1 <= u_pid u)%N -> exists r, In r (describe us) /\ r_pid r = u_pid u.
+Proof.
+  intros Hu H1. rewrite describe_char. set (s := usort us).
+  assert (Hs : In u s) by now apply usort_in.
+  assert (Hq : In (u_pid u) (runs s 0)).
+  { apply runs_complete; [assumption|lia|intros; lia|apply usort_sorted]. }
+  destruct (first_of s (u_pid u)) as [z|] eqn:EF.
+  - pose proof EF as EF'. apply first_of_some in EF' as [Hz Ez].
+    assert (HR : rows_for s (u_pid u) <> []).
+    { unfold rows_for. rewrite EF. unfold pd_flush. rewrite summ_pid. cbn [pd_fresh pd_pid]. rewrite Ez.
+      assert (X : (u_pid u <? 1)%N = false) by (apply N.ltb_ge; lia). rewrite X. discriminate. }
+    destruct (rows_for s (u_pid u)) as [|r rs] eqn:ER; [congruence|]. exists r. split.
+    + apply in_flat_map. exists (u_pid u). split; [assumption|]. rewrite ER. now left.
+    + apply (rows_for_pid s (u_pid u)). rewrite ER. now left.
+  - exfalso. apply (first_of_none _ _ EF u Hs). reflexivity.
 Qed.
